@@ -53,7 +53,7 @@ def run(ctx: Ctx) -> Result:
             if c < .15 and sigs: s = sigs[-1]                                        # exact duplicate
             elif c < .3 and n: signer = idx[rng.randrange(n)]; s = None              # maybe same signer again (flag variant)
             elif c < .4 and outsiders: signer = rng.choice(outsiders); s = None     # outsider
-            elif c < .45: s = V.rbytes(rng, rng.choice([10, 63, 66])); well = False   # malformed
+            elif c < .45: s = rng.choice([V.rbytes(rng, rng.choice([10, 63, 66])), b'', b'\x00', b'\x01', b'\xff', V.rbytes(rng, 2)]); well = False   # malformed, incl. empty / OP_FALSE-style placeholders
             elif c < .5: s = None; fl = 2 if not (allowed & 2) else 0x40              # non-permitted flag
             else: s = None
             if s is None:
